@@ -7,7 +7,7 @@ for d in "$root/$id"/seeded/*/ "$root/$id"/*/; do
   [ -f "$d/patch.diff" ] || continue
   name=$(basename "$d")
   if ! git -C /repo apply --check "$d/patch.diff" 2>/dev/null; then
-    if git -C /repo apply --3way "$d/patch.diff" 2>/dev/null; then git -C /repo reset -q; else echo "NOAPPLY $id/$name"; git -C /repo checkout -- . ; continue; fi
+    if git -C /repo apply --3way "$d/patch.diff" 2>/dev/null; then git -C /repo reset -q; else echo "NOAPPLY $id/$name"; git -C /repo reset -q --hard HEAD; continue; fi
   else
     git -C /repo apply "$d/patch.diff"
   fi
